@@ -998,3 +998,51 @@ Proof.
 Qed.
 
 End Inert.
+
+(* ------------------------------------------------------------------ the hypotheses as one record *)
+Record iagree (T : byte -> bool) (o1 o2 : iopts) (inp : bytes) : Prop := mkIAgree {
+  ia_nonascii : forall b, is_ascii b = false -> T b = false;
+  ia_autolink : io_autolink o1 = io_autolink o2 \/ (T x3a = true /\ T x77 = true);
+  ia_relaxed : io_relaxed_autolinks o1 = io_relaxed_autolinks o2 \/ (T x3a = true /\ T x77 = true);
+  ia_strike : io_strikethrough o1 = io_strikethrough o2 \/ T x7e = true;
+  ia_sub : io_subscript o1 = io_subscript o2 \/ T x7e = true;
+  ia_sup : io_superscript o1 = io_superscript o2 \/ T x5e = true;
+  ia_under : io_underline o1 = io_underline o2 \/ T x5f = true;
+  ia_spoiler : io_spoiler o1 = io_spoiler o2 \/ T x7c = true;
+  ia_md : io_math_dollars o1 = io_math_dollars o2 \/ T x24 = true;
+  ia_mc : io_math_code o1 = io_math_code o2 \/ T x24 = true;
+  ia_wa : io_wikilinks_after o1 = io_wikilinks_after o2 \/ T x5b = true;
+  ia_wb : io_wikilinks_before o1 = io_wikilinks_before o2 \/ T x5b = true;
+  ia_fn : io_footnotes o1 = io_footnotes o2 \/ T x5b = true;
+  ia_smart : io_smart o1 = io_smart o2 \/ (T x27 = true /\ T x22 = true /\ T x2d = true /\ T x2e = true);
+  ia_ecs : io_escaped_char_spans o1 = io_escaped_char_spans o2;
+  ia_iel : io_ignore_empty_links o1 = io_ignore_empty_links o2;
+  ia_fsc : forall wb p, find_special_char (io_fn o1) wb inp p = find_special_char (io_fn o2) wb inp p;
+  ia_skip : forall b, T b = false -> skip_chars (io_fn o1) b = skip_chars (io_fn o2) b }.
+
+Definition tfree (T : byte -> bool) (inp : bytes) : Prop := forall b, In b inp -> T b = false.
+
+Lemma parse_inlines_inert_rec memo T o1 o2 u inp lo sl refmap maxref r0 :
+  tfree T inp -> iagree T o1 o2 inp ->
+  parse_inlines memo o1 u inp lo sl refmap maxref r0 = parse_inlines memo o2 u inp lo sl refmap maxref r0.
+Proof. intros Hf []. apply (parse_inlines_inert memo T); assumption. Qed.
+
+Lemma step_eq_rec memo T o1 o2 u inp lo sl refmap maxref s :
+  tfree T inp -> iagree T o1 o2 inp -> Inv T s ->
+  parse_inline memo o1 u inp lo sl refmap maxref s = parse_inline memo o2 u inp lo sl refmap maxref s.
+Proof. intros Hf []. apply (step_eq memo T); assumption. Qed.
+
+Lemma step_inv_rec memo T o u inp lo sl refmap maxref s s' :
+  tfree T inp -> (forall b, is_ascii b = false -> T b = false) -> Inv T s ->
+  parse_inline memo o u inp lo sl refmap maxref s = Ok (Some s') -> Inv T s'.
+Proof. intros Hf Hn. apply (step_inv memo T); assumption. Qed.
+
+Lemma loop_eq_rec memo T o1 o2 u inp lo sl refmap maxref fuel s :
+  tfree T inp -> iagree T o1 o2 inp -> Inv T s ->
+  inline_loop memo o1 u inp lo sl refmap maxref fuel s = inline_loop memo o2 u inp lo sl refmap maxref fuel s.
+Proof. intros Hf [] I. apply (loop_eq memo T); assumption. Qed.
+
+Lemma process_emphasis_inert_rec T o1 o2 inp s n0 items ds bottom :
+  iagree T o1 o2 inp -> (forall d, In d ds -> dgood T items d) ->
+  process_emphasis o1 inp s n0 items ds bottom = process_emphasis o2 inp s n0 items ds bottom.
+Proof. intros [] G. apply (process_emphasis_eq T); assumption. Qed.
